@@ -228,6 +228,28 @@ def rule_for_over_vec(body, applied):
     return body
 
 
+def rule_defunctionalise(body, applied):
+    """R15: `let f = match V { P1 => g::<T1>, P2 => g::<T2>, .. }; ... f(args);`  (Verus has no function pointers)
+    -> the `let` is removed and the call becomes `match V { P1 => g::<T1>(args), P2 => g::<T2>(args), .. };`.
+    V must be a plain variable; patterns and instantiations are copied token-for-token."""
+    m = re.search(r'let\s+([A-Za-z_][A-Za-z0-9_]*)\s*=\s*match\s+([A-Za-z_][A-Za-z0-9_]*)\s*\{((?:\s*[^=;{}]+=>\s*[A-Za-z_][A-Za-z0-9_:]*::<[^;{}]*?>\s*,)+)\s*\}\s*;', body)
+    if not m:
+        return body
+    fname, var, arms = m.group(1), m.group(2), m.group(3)
+    call = re.search(r'\b' + re.escape(fname) + r'\(([^;]*)\)\s*;', body[m.end():])
+    if not call:
+        raise GenError('R15: function value %s is never called' % fname)
+    if len(re.findall(r'\b' + re.escape(fname) + r'\b', body)) != 2:
+        raise GenError('R15: function value %s used more than once' % fname)
+    args = call.group(1)
+    new_arms = re.sub(r'(=>\s*[A-Za-z_][A-Za-z0-9_:]*::<[^;{}]*?>)\s*,', lambda a: a.group(1) + '(' + args + '),', arms)
+    cs = m.end() + call.start()
+    ce = m.end() + call.end()
+    body = body[:m.start()] + body[m.end():cs] + 'match ' + var + ' {' + new_arms + '\n};' + body[ce:]
+    applied.append({'rule': 'R15', 'function_value': fname, 'selector': var})
+    return body
+
+
 def rule_for_range_with_continue(body, applied):
     """R13: `for i in A..B { ..continue.. }` (Verus' for-loops do not support `continue`)
     -> `{ let mut idx_rK = A; let end_rK = B; while idx_rK < end_rK { let i = idx_rK; idx_rK += 1; ... } }`."""
@@ -656,6 +678,7 @@ def emit_fn(contract, verified, info):
     body = rule_lexical(body, applied)
     body = rule_iter_mut_for_each(body, applied)
     body = rule_iter_chains(body, applied)
+    body = rule_defunctionalise(body, applied)
     body = rule_for_over_vec(body, applied)
     body = rule_for_range_with_continue(body, applied)
     body, nloops = splice(body, contract, applied)
